@@ -90,7 +90,25 @@ pub fn of_plan(p: &BottomUpPlan) -> Ex {
 pub fn gen_ex(rng: &mut Rng, nv: usize, depth: usize, consts: bool, xor: bool) -> Ex {
     if depth == 0 || rng.chance(1, 5) {
         if consts && rng.chance(1, 10) { return if rng.coin() { Ex::T } else { Ex::F }; }
+        // constant-valued sub-formulas without constants: x & !x, x | !x (they drive the
+        // short-circuit / absorption paths of a compiler)
+        if rng.chance(1, 8) {
+            let (v, p) = (rng.below(nv as u64), rng.coin());
+            let (a, b) = (Box::new(Ex::L(v, p)), Box::new(Ex::L(v, !p)));
+            return if rng.coin() { Ex::A(a, b) } else { Ex::O(a, b) };
+        }
         return Ex::L(rng.below(nv as u64), rng.coin());
+    }
+    // left-deep and right-deep chains of mixed and/or (what from_dimacs-like producers emit)
+    if depth >= 2 && rng.chance(1, 6) {
+        let left = rng.coin();
+        let mut acc = gen_ex(rng, nv, depth.saturating_sub(2), consts, xor);
+        for _ in 0..rng.range(2, 5) {
+            let other = Box::new(gen_ex(rng, nv, depth.saturating_sub(2), consts, xor));
+            let (l, r) = if left { (Box::new(acc), other) } else { (other, Box::new(acc)) };
+            acc = if rng.coin() { Ex::A(l, r) } else { Ex::O(l, r) };
+        }
+        return acc;
     }
     let mut sub = |rng: &mut Rng| Box::new(gen_ex(rng, nv, depth - 1, consts, xor));
     match rng.below(7) {
@@ -139,4 +157,31 @@ pub fn to_cnf(c: &RawCnf) -> Cnf {
 }
 pub fn cnf_eval(c: &RawCnf, a: usize) -> bool {
     c.iter().all(|cl| cl.iter().any(|(v, p)| ((a >> v) & 1 == 1) == *p))
+}
+
+/// evaluation under an arbitrary valuation (labels beyond the width of a machine word)
+pub fn cnf_eval_f(c: &RawCnf, val: &dyn Fn(u64) -> bool) -> bool {
+    c.iter().all(|cl| cl.iter().any(|(v, p)| val(*v) == *p))
+}
+pub fn ex_eval_f(e: &Ex, val: &dyn Fn(u64) -> bool) -> bool {
+    match e {
+        Ex::L(v, p) => val(*v) == *p,
+        Ex::T => true,
+        Ex::F => false,
+        Ex::N(a) => !ex_eval_f(a, val),
+        Ex::A(a, b) => ex_eval_f(a, val) && ex_eval_f(b, val),
+        Ex::O(a, b) => ex_eval_f(a, val) || ex_eval_f(b, val),
+        Ex::I(a, b) => ex_eval_f(a, val) == ex_eval_f(b, val),
+        Ex::X(a, b) => ex_eval_f(a, val) != ex_eval_f(b, val),
+        Ex::K(a, b, c) => if ex_eval_f(a, val) { ex_eval_f(b, val) } else { ex_eval_f(c, val) },
+    }
+}
+pub fn ex_vars(e: &Ex, out: &mut Vec<u64>) {
+    match e {
+        Ex::L(v, _) => out.push(*v),
+        Ex::T | Ex::F => (),
+        Ex::N(a) => ex_vars(a, out),
+        Ex::A(a, b) | Ex::O(a, b) | Ex::I(a, b) | Ex::X(a, b) => { ex_vars(a, out); ex_vars(b, out) }
+        Ex::K(a, b, c) => { ex_vars(a, out); ex_vars(b, out); ex_vars(c, out) }
+    }
 }
